@@ -355,38 +355,53 @@ theorem C08_timed_out_disconnected (l : FLink F) (now : Nat) (hc : l.core.connec
       · left; exact h0
     simp only [this, Bool.false_eq_true, if_false, hg, not_false_eq_true]
 
-/-- **The timeout a link is judged by is the configured one as of the latest selection pass.**
+/-- **The timeout a link is judged by is the configured one as of the latest selection pass or
+`sync_conn_timeout`.**
 (a) a selection pass (`select_connection_idx`, run for every client datagram after registration)
 leaves `conn_timeout_ms = cfg.conn_timeout_ms` on every link; (b) no event changes a link's copy
-except a client event, which can only set it to the value configured at that event. -/
+except a client event and `syncTimeout` (`sync_conn_timeout`, called by the housekeeping arm right before
+`handle_housekeeping`), which can only set it to the value configured at that event; (c) after
+`syncTimeout` EVERY link's copy is the configured value, and nothing else of the link has changed. -/
 theorem C08_timeout_copy (s : Sys F) :
     (∀ now, ∀ l ∈ (runSelect s now).1.links, l.connTimeoutMs = s.cfg.connTimeoutMs) ∧
     (∀ (e : Ev) (j : Nat) (l l' : FLink F), s.links[j]? = some l → (step s e).1.links[j]? = some l' →
       l'.connTimeoutMs = l.connTimeoutMs ∨
-      ((∃ now pkt, e = .client now pkt) ∧ l'.connTimeoutMs = s.cfg.connTimeoutMs)) := by
-  constructor
+      (((∃ now pkt, e = .client now pkt) ∨ e = .syncTimeout) ∧ l'.connTimeoutMs = s.cfg.connTimeoutMs)) ∧
+    (∀ (j : Nat) (l : FLink F), s.links[j]? = some l →
+      (step s .syncTimeout).1.links[j]? = some { l with connTimeoutMs := s.cfg.connTimeoutMs }) ∧
+    (∀ l ∈ (step s .syncTimeout).1.links, l.connTimeoutMs = s.cfg.connTimeoutMs) := by
+  refine ⟨?_, ?_, ?_, ?_⟩
   · intro now l hl
     obtain ⟨g, h1, -, h3, -⟩ := runSelect_links s now
     rw [h1] at hl
     obtain ⟨x, hx, rfl⟩ := List.mem_map.1 hl
     exact h3 x hx
+  rotate_left
+  · intro j l hl
+    show (s.links.map fun l => ({ l with connTimeoutMs := s.cfg.connTimeoutMs } : FLink F))[j]? = _
+    rw [List.getElem?_map, hl]; rfl
+  · intro l hl
+    have hl' : l ∈ s.links.map fun l => ({ l with connTimeoutMs := s.cfg.connTimeoutMs } : FLink F) := hl
+    obtain ⟨x, -, rfl⟩ := List.mem_map.1 hl'
+    rfl
   · intro e j l l' hl hl'
     obtain ⟨l'', hl'', hs⟩ := (step_link s e).1 j l hl
     rw [hl'] at hl''; cases hl''
     have hTOk : ∀ cto : Option Nat,
-        (cto = none ∨ ∃ now pkt, e = .client now pkt ∧ cto = some s.cfg.connTimeoutMs) → TOk cto l l' →
+        (cto = none ∨ (((∃ now pkt, e = .client now pkt) ∨ e = .syncTimeout) ∧ cto = some s.cfg.connTimeoutMs)) →
+        TOk cto l l' →
         l'.connTimeoutMs = l.connTimeoutMs ∨
-          ((∃ now pkt, e = .client now pkt) ∧ l'.connTimeoutMs = s.cfg.connTimeoutMs) := by
+          (((∃ now pkt, e = .client now pkt) ∨ e = .syncTimeout) ∧ l'.connTimeoutMs = s.cfg.connTimeoutMs) := by
       intro cto hcto ht
       rcases ht with ht | ht
       · left; exact ht
-      · rcases hcto with hcto | ⟨now, pkt, he, hcto⟩
+      · rcases hcto with hcto | ⟨he, hcto⟩
         · rw [hcto] at ht; cases ht
         · right; rw [hcto] at ht
-          exact ⟨⟨now, pkt, he⟩, (Option.some.inj ht).symm⟩
+          exact ⟨he, (Option.some.inj ht).symm⟩
     cases hs with
     | evolves cto hcto h => exact hTOk cto hcto h.timeout
-    | sendFail now pkt he h _ => exact hTOk _ (Or.inr ⟨now, pkt, he, rfl⟩) h.timeout
+    | sendFail now pkt he h _ => exact hTOk _ (Or.inr ⟨.inl ⟨now, pkt, he⟩, rfl⟩) h.timeout
     | reg3 now cid data he hidx hev hl3 _ => left; subst hl3; rfl
     | regErr now cid data he hidx hev hlE => left; subst hlE; rfl
     | attempt now he hto hsa hlA =>
@@ -1314,6 +1329,7 @@ theorem C08_aux_answer_sys (cid j dl : Nat) (evs : List Ev) :
         | crit d => simpa only [AnswerBy] using ha
         | failNext c => simpa only [AnswerBy] using ha
         | failBind c => simpa only [AnswerBy] using ha
+        | syncTimeout => simpa only [AnswerBy] using ha
         | stamp idx weak ld ccb cct => simpa only [AnswerBy] using ha
       obtain ⟨l1, hl1, hc⟩ := C08_aux_liveInv_step cid j s l e hinv (hne e (List.mem_cons_self))
       rcases hc with ⟨hinv1, -⟩ | ⟨now, data, he, hty, -⟩
@@ -1354,6 +1370,9 @@ theorem C08_aux_clock_before_tick (d pt : Nat) (es : List Ev) (hm : MonoFrom d e
       simp only [MonoFrom, evClock, TickGaps] at hm hg
       exact ih d hm hg (by obtain ⟨t, ht⟩ := hex; exact ⟨t, by simpa using ht⟩)
     | failBind c =>
+      simp only [MonoFrom, evClock, TickGaps] at hm hg
+      exact ih d hm hg (by obtain ⟨t, ht⟩ := hex; exact ⟨t, by simpa using ht⟩)
+    | syncTimeout =>
       simp only [MonoFrom, evClock, TickGaps] at hm hg
       exact ih d hm hg (by obtain ⟨t, ht⟩ := hex; exact ⟨t, by simpa using ht⟩)
     | stamp idx weak ld ccb cct =>
@@ -1445,6 +1464,7 @@ theorem C08_aux_live_sys (cid j T0 : Nat) (evs : List Ev) :
           | crit x => simp only [MonoFrom, evClock] at hm; exact ⟨_, hm⟩
           | failNext c => simp only [MonoFrom, evClock] at hm; exact ⟨_, hm⟩
           | failBind c => simp only [MonoFrom, evClock] at hm; exact ⟨_, hm⟩
+          | syncTimeout => simp only [MonoFrom, evClock] at hm; exact ⟨_, hm⟩
           | stamp idx weak ld ccb cct => simp only [MonoFrom, evClock] at hm; exact ⟨_, hm⟩
         obtain ⟨lo', hm'⟩ := hm'
         obtain ⟨pre, d, data, post, e1, e2, e3, l', hl', hp⟩ :=
@@ -1579,6 +1599,7 @@ theorem C08_aux_answerByB (cid dl : Nat) (es : List Ev) (h : answerByB cid dl es
     | crit d => exact ih (by simpa only [answerByB] using h)
     | failNext c => exact ih (by simpa only [answerByB] using h)
     | failBind c => exact ih (by simpa only [answerByB] using h)
+    | syncTimeout => exact ih (by simpa only [answerByB] using h)
     | stamp idx weak ld ccb cct => exact ih (by simpa only [answerByB] using h)
 
 def answeredB (cid : Nat) : Sys F → List Ev → Bool
@@ -1608,15 +1629,16 @@ theorem C08_aux_answeredB (cid : Nat) (evs : List Ev) :
     · exact C08_aux_answerByB cid _ es h1
 
 /-- Non-vacuity of the run-level theorem on `exSys` (link 1 = `exDown`: conn id 7, down, last attempt
-at 2000): reference time 6000; a client datagram, a keepalive on the OTHER link, a tick at 6900 (not
+at 2000): reference time 6000 (every tick is the real arm `syncTimeout`, `hk`); a client datagram, a keepalive on the OTHER link, a tick at 6900 (not
 due: 4900 ms after the last attempt), a straggler on link 1 ITSELF, a flush tick, a bind failure
-injected for the OTHER link, a configuration change, the tick at 7900 (due: attempt, REG2 on the
+injected for the OTHER link, a configuration change, a verdict stamp, the tick at 7900 (due: attempt, REG2 on the
 wire), another client datagram, the REG3 at 8000, one more tick.  All hypotheses hold; the theorem
 yields the re-join at the REG3 (`d = 8000 < 2000 + 5000 + 1100 + 1100`). -/
 def exLiveRun : List Ev :=
-  [.client 6100 [0x80, 0x02, 0, 0, 0, 0, 0, 0], .uplink 6200 5 [0x90, 0x00], .hk 6900, .uplink 6950 7 [0x90, 0x00],
-   .flush 6960, .failBind 5, .setCfg {}, .hk 7900, .client 7950 [0x80, 0x02, 0, 0, 0, 0, 0, 1],
-   .uplink 8000 7 [0x92, 0x02], .hk 8900]
+  [.client 6100 [0x80, 0x02, 0, 0, 0, 0, 0, 0], .uplink 6200 5 [0x90, 0x00], .syncTimeout, .hk 6900,
+   .uplink 6950 7 [0x90, 0x00], .flush 6960, .failBind 5, .setCfg {}, .stamp 0 true false false 100000,
+   .syncTimeout, .hk 7900, .client 7950 [0x80, 0x02, 0, 0, 0, 0, 0, 1], .uplink 8000 7 [0x92, 0x02],
+   .syncTimeout, .hk 8900]
 
 theorem C08_aux_exSys_inv : RejoinInv exSys := by
   intro j l hl
@@ -1650,15 +1672,165 @@ example :
 
 
 /-- … and what that run really does: link 1 is connected (window 20000) after the REG3 at 8000 — the
-prefix of 10 events — and not before; the tick at 6900 made no attempt (stamp still 2000), the tick at
+prefix of 13 events — and not before; the tick at 6900 made no attempt (stamp still 2000), the tick at
 7900 did; the live link 0 keeps its own window throughout. -/
 example :
-    ((run exSys (exLiveRun.take 10)).links.map fun l => (l.core.connected, l.core.window, l.lastAttemptMs)) =
+    ((run exSys (exLiveRun.take 13)).links.map fun l => (l.core.connected, l.core.window, l.lastAttemptMs)) =
       [(true, 23060, 0), (true, 20000, 7900)] ∧
-    ((run exSys (exLiveRun.take 9)).links.map fun l => (l.core.connected, l.lastAttemptMs)) =
+    ((run exSys (exLiveRun.take 12)).links.map fun l => (l.core.connected, l.lastAttemptMs)) =
       [(true, 0), (false, 7900)] ∧
-    ((run exSys (exLiveRun.take 3)).links.map fun l => (l.core.connected, l.lastAttemptMs)) =
+    ((run exSys (exLiveRun.take 4)).links.map fun l => (l.core.connected, l.lastAttemptMs)) =
       [(true, 0), (false, 2000)] := by
   decide +kernel
+
+/-! ## 10. Never earlier than the CONFIGURED timeout: `sync_conn_timeout` before `handle_housekeeping`
+
+`is_timed_out` reads the link's own COPY of the connection timeout.  Before the `fix:` commit recorded in
+known_findings.json the copy was refreshed only by `apply_stall_gate` — i.e. when a client datagram was
+routed —, so with `--conn-timeout-ms 30000` (or a runtime raise) and no client traffic a silent link was torn
+down after the 5000 ms default.  Since the fix the housekeeping arm of the event loop is the two-event sequence
+`[.syncTimeout, .hk now]` (`sync_conn_timeout`, then `handle_housekeeping`). -/
+
+theorem C08_aux_run_append (s : Sys F) (a b : List Ev) : run s (a ++ b) = run (run s a) b := by
+  induction a generalizing s with
+  | nil => rfl
+  | cons e a ih => exact ih _
+
+/-- **The housekeeping arm judges by the configured timeout.**  For the arm `[.syncTimeout, .hk now]` from ANY
+state `s` — whatever stale copy of the timeout a link carries —: a link that is connected before the arm and
+not connected after it (torn down by the tick) had heard something, and the silence since then is at least the
+CONFIGURED `s.cfg.connTimeoutMs`. -/
+theorem C08_sync_then_hk_uses_configured (s : Sys F) (now j : Nat) (l l' : FLink F)
+    (hl : s.links[j]? = some l) (hl' : (run s [.syncTimeout, .hk now]).links[j]? = some l')
+    (hc : l.core.connected = true) (hd : l'.core.connected = false) :
+    ∃ lr, l.core.lastReceived = some lr ∧ now - lr ≥ s.cfg.connTimeoutMs := by
+  have h1 := (C08_timeout_copy s).2.2.1 j l hl
+  have hl'' : (step (step s .syncTimeout).1 (.hk now)).1.links[j]? = some l' := hl'
+  have hcause := C08_teardown_causes (step s .syncTimeout).1 (.hk now) j _ l' h1 hl'' (Or.inl ⟨hc, hd⟩)
+  rcases hcause with ⟨now', he, hto, -⟩ | ⟨now', pkt, he, -⟩ | ⟨now', cid, data, he, -⟩
+  · cases he
+    exact (C08_timed_out_connected ({ l with connTimeoutMs := s.cfg.connTimeoutMs } : FLink F) now hc).1 hto
+  · cases he
+  · cases he
+
+/-- Every `.hk` event of the run is immediately preceded by `.syncTimeout` (`prevSync`: the previous event was
+one): runs of the real event loop, whose housekeeping arm is `[.syncTimeout, .hk now]`. -/
+def ArmRunFrom (prevSync : Bool) : List Ev → Prop
+  | [] => True
+  | .hk _ :: es => prevSync = true ∧ ArmRunFrom false es
+  | .syncTimeout :: es => ArmRunFrom true es
+  | _ :: es => ArmRunFrom false es
+
+def ArmRun (evs : List Ev) : Prop := ArmRunFrom false evs
+
+theorem C08_aux_armRun_split (now : Nat) (post : List Ev) :
+    ∀ (pre : List Ev) (b : Bool), ArmRunFrom b (pre ++ .hk now :: post) →
+      (pre = [] ∧ b = true) ∨ ∃ pre', pre = pre' ++ [.syncTimeout] := by
+  intro pre
+  induction pre with
+  | nil => intro b h; exact .inl ⟨rfl, h.1⟩
+  | cons e rest ih =>
+    intro b h
+    right
+    have key : ∀ b', ArmRunFrom b' (rest ++ .hk now :: post) → (b' = true → e = .syncTimeout) →
+        ∃ pre', e :: rest = pre' ++ [.syncTimeout] := by
+      intro b' h' hb
+      rcases ih b' h' with ⟨hr, hb'⟩ | ⟨pre', hr⟩
+      · exact ⟨[], by rw [hr, hb hb']; rfl⟩
+      · exact ⟨e :: pre', by rw [hr]; rfl⟩
+    cases e with
+    | hk t => exact key false h.2 (fun hb => by cases hb)
+    | syncTimeout => exact key true h (fun _ => rfl)
+    | client t pkt => exact key false h (fun hb => by cases hb)
+    | uplink t c d => exact key false h (fun hb => by cases hb)
+    | flush t => exact key false h (fun hb => by cases hb)
+    | setCfg c => exact key false h (fun hb => by cases hb)
+    | crit d => exact key false h (fun hb => by cases hb)
+    | failNext c => exact key false h (fun hb => by cases hb)
+    | failBind c => exact key false h (fun hb => by cases hb)
+    | stamp i w ld cb ct => exact key false h (fun hb => by cases hb)
+
+/-- **Never earlier than the configured timeout, along runs of the event loop.**  Along ANY run in which every
+housekeeping tick is the real arm (`ArmRun`: `.hk` immediately preceded by `.syncTimeout`; everything else
+arbitrary), from ANY state: whenever a tick tears down a connected link — `l` the record the tick starts with,
+`l'` the record it leaves — the cause is (a) of `C08_teardown_causes` (timed out and due for a reconnect attempt
+at that tick), the copy the link is judged by IS the timeout configured at that moment, and the link had heard
+something at least that CONFIGURED timeout ago: never earlier. -/
+theorem C08_not_earlier_than_configured_run (s0 : Sys F) (evs : List Ev) (harm : ArmRun evs)
+    (pre : List Ev) (now : Nat) (post : List Ev) (hsplit : evs = pre ++ .hk now :: post)
+    (j : Nat) (l l' : FLink F) (hl : (run s0 pre).links[j]? = some l)
+    (hl' : (run s0 (pre ++ [.hk now])).links[j]? = some l')
+    (hc : l.core.connected = true) (hd : l'.core.connected = false) :
+    Cause (run s0 pre) (.hk now) j l ∧
+    l.isTimedOut now = true ∧ l.shouldAttemptReconnect now = true ∧
+    l.connTimeoutMs = (run s0 pre).cfg.connTimeoutMs ∧
+    ∃ lr, l.core.lastReceived = some lr ∧ now - lr ≥ (run s0 pre).cfg.connTimeoutMs := by
+  -- the event before the tick is `syncTimeout`
+  obtain ⟨pre', hpre⟩ : ∃ pre', pre = pre' ++ [.syncTimeout] := by
+    rcases C08_aux_armRun_split now post pre false (hsplit ▸ harm) with ⟨-, hb⟩ | h
+    · cases hb
+    · exact h
+  have hrun : run s0 pre = (step (run s0 pre') .syncTimeout).1 := by
+    rw [hpre, C08_aux_run_append]; rfl
+  have hcopy : l.connTimeoutMs = (run s0 pre).cfg.connTimeoutMs := by
+    have := (C08_timeout_copy (run s0 pre')).2.2.2 l (by rw [← hrun]; exact List.mem_of_getElem? hl)
+    rw [this, hrun]; rfl
+  have hl'' : (step (run s0 pre) (.hk now)).1.links[j]? = some l' := by
+    rw [C08_aux_run_append] at hl'; exact hl'
+  have hcause := C08_teardown_causes (run s0 pre) (.hk now) j l l' hl hl'' (Or.inl ⟨hc, hd⟩)
+  refine ⟨hcause, ?_⟩
+  rcases hcause with ⟨now', he, hto, hsa⟩ | ⟨now', pkt, he, -⟩ | ⟨now', cid, data, he, -⟩
+  · cases he
+    obtain ⟨lr, hlr, hge⟩ := (C08_timed_out_connected l now hc).1 hto
+    exact ⟨hto, hsa, hcopy, lr, hlr, by rw [← hcopy]; exact hge⟩
+  · cases he
+  · cases he
+
+/-- A live link that carries the 5000 ms DEFAULT as its copy while 30000 ms is configured (the timeout was
+raised and no client datagram has been routed since): last heard at 1000. -/
+def exStale : Sys Int :=
+  { exSys with links := [exLive, exDown], cfg := { connTimeoutMs := 30000 } }
+
+/-- Non-vacuity, and the defect the fix removes: `handle_housekeeping` ALONE at 6100 tears the live link down
+after 5100 ms of silence (stale copy 5000); the arm `[syncTimeout, hk 6100]` does not — nor at 30999 —, and at
+31000 (30000 ms of silence, the configured value) it does: the theorem's hypotheses are met and its conclusion
+reads `31000 - 1000 ≥ 30000`. -/
+example :
+    ((run exStale [.hk 6100]).links.map fun l => l.core.connected) = [false, false] ∧
+    ((run exStale [.syncTimeout, .hk 6100]).links.map fun l => (l.core.connected, l.connTimeoutMs)) =
+      [(true, 30000), (false, 30000)] ∧
+    ((run exStale [.syncTimeout, .hk 30999]).links.map fun l => l.core.connected) = [true, false] ∧
+    ((run exStale [.syncTimeout, .hk 31000]).links.map fun l => l.core.connected) = [false, false] := by
+  decide +kernel
+
+example : ∃ lr, exLive.core.lastReceived = some lr ∧ 31000 - lr ≥ exStale.cfg.connTimeoutMs :=
+  C08_sync_then_hk_uses_configured exStale 31000 0 exLive
+    ((run exStale [.syncTimeout, .hk 31000]).links[0]'(by decide +kernel)) rfl
+    (List.getElem?_eq_getElem _) (by decide) (by decide +kernel)
+
+/-- A run of the event loop from the stale state (client datagram, verdict stamp, three arms): it is an
+`ArmRun`; the arm at 31000 tears link 0 down, and the run theorem gives the configured bound for it. -/
+def exArmRun : List Ev :=
+  [.syncTimeout, .hk 6100, .stamp 0 true false false 0, .uplink 6200 7 [0x90, 0x00], .syncTimeout, .hk 30999,
+   .syncTimeout, .hk 31000]
+
+example : ArmRun exArmRun ∧ ¬ ArmRun [.syncTimeout, .flush 5, .hk 6100] := by
+  constructor
+  · simp [ArmRun, ArmRunFrom, exArmRun]
+  · simp [ArmRun, ArmRunFrom]
+
+example : ∃ lr, exLive.core.lastReceived = some lr ∧ 31000 - lr ≥ 30000 := by
+  have h := C08_not_earlier_than_configured_run exStale exArmRun (by simp [ArmRun, ArmRunFrom, exArmRun])
+    (exArmRun.take 7) 31000 [] rfl 0
+    ((run exStale (exArmRun.take 7)).links[0]'(by decide +kernel))
+    ((run exStale (exArmRun.take 7 ++ [.hk 31000])).links[0]'(by decide +kernel))
+    (List.getElem?_eq_getElem _) (List.getElem?_eq_getElem _) (by decide +kernel) (by decide +kernel)
+  obtain ⟨-, -, -, -, lr, h1, h2⟩ := h
+  refine ⟨lr, ?_, ?_⟩
+  · have : ((run exStale (exArmRun.take 7)).links[0]'(by decide +kernel)).core.lastReceived =
+        exLive.core.lastReceived := by decide +kernel
+    rw [← this]; exact h1
+  · have : (run exStale (exArmRun.take 7)).cfg.connTimeoutMs = 30000 := by decide +kernel
+    rw [this] at h2; exact h2
 
 end Srtla.Props.C08
